@@ -244,6 +244,11 @@ def history(bib, rnd, depth, cid):
     U, rec = big_universe(model, rnd)
     names = {id(v): k for k, v in U.items()}
     lib = bib.Library()
+    # a bystander: another library (holding blocks with the same keys) that nobody touches during the history
+    by_blocks = [model.Entry("article", k, [model.Field("t", "by")]) for k in ("k1", "k2")] + [model.String("k1", "by"), model.ImplicitComment("by")]
+    bystander = bib.Library(by_blocks)
+    by_names = {id(b): "by%d" % i for i, b in enumerate(by_blocks)}
+    by_views = views(bystander, by_names, model)
     ids = sorted(U)
     evs = []
     for _ in range(depth):
@@ -275,6 +280,8 @@ def history(bib, rnd, depth, cid):
         ev = dict(op)
         ev["out"] = out
         ev["v"] = views(lib, names, model)
+        if views(bystander, by_names, model) != by_views:
+            ev["v"] = dict(ev["v"], blocks=ev["v"]["blocks"] + ["<another library changed: %s>" % views(bystander, by_names, model)["blocks"]])
         evs.append(ev)
     return {"id": cid, "ev": evs}
 
